@@ -1,4 +1,117 @@
-import PieModel.Build.Pie
+/-
+Property C06 (local detection logic): a write to a resource that already has a recorded writer
+aborts the build with "overlapping write" — in `write` before the resource is modified, in
+`written_to` after (the caller has modified it already).  Exact characterisation of when the
+overlap abort happens.
+
+Unfolding work: `PieModel/Build/Proofs/{SessionLemmas,ValidateWrite}.lean`.
+-/
+import PieModel.Build.Proofs.ValidateWrite
+import PieModel.Build.Proofs.DecEq
+import PieModel.Build.StdSem
+import PieModel.Build.Script
+
 namespace PieModel
-theorem C06_placeholder : True := trivial
+open Sess SessL
+
+variable (sem : Sem)
+
+/-- `write` to a resource with a recorded writer `w` (any `w`, the writing task itself included):
+abort `overlap`; the resource state is untouched, the store is the store after node lookup, only
+`write_start` has been reported, no dependency added. -/
+theorem C06_write_overlap_abort (s : Sess) (r c cur w : Nat) (v : Option Int) (st : Store) (dst : Nat)
+    (hcur : s.cur = some cur) (hn : s.store.getOrCreateResNode r = (st, dst))
+    (hw : st.taskWritingTo dst = some w) :
+    ∃ s₁, doWrite sem s r c v = (s₁, .abort .overlap) ∧
+      s₁.fs = s.fs ∧ s₁.store = st ∧ s₁.trace = s.trace ++ [.writeStart r c] ∧
+      s₁.errors = s.errors ∧ s₁.cur = s.cur := by
+  have hv : validateWrite st cur dst = some .overlap :=
+    (validateWrite_overlap_iff st cur dst).mpr (by simp [hw])
+  exact ⟨_, doWrite_validate_abort sem s r c cur v st dst _ hcur hn hv, rfl, rfl, rfl, rfl, rfl⟩
+
+/-- The same as one equation. -/
+theorem C06_write_overlap_eq (s : Sess) (r c cur w : Nat) (v : Option Int) (st : Store) (dst : Nat)
+    (hcur : s.cur = some cur) (hn : s.store.getOrCreateResNode r = (st, dst))
+    (hw : st.taskWritingTo dst = some w) :
+    doWrite sem s r c v =
+      ({ s with store := st, trace := s.trace ++ [.writeStart r c] }, .abort .overlap) :=
+  doWrite_validate_abort sem s r c cur v st dst _ hcur hn
+    ((validateWrite_overlap_iff st cur dst).mpr (by simp [hw]))
+
+/-- `written_to` on a resource with a recorded writer: same verdict; here the content is already
+modified when the declaration is validated. -/
+theorem C06_wrote_overlap_abort (s : Sess) (r c cur w : Nat) (v : Option Int) (st : Store) (dst : Nat)
+    (hcur : s.cur = some cur) (hn : s.store.getOrCreateResNode r = (st, dst))
+    (hw : st.taskWritingTo dst = some w) :
+    ∃ s₁, doWrote sem s r c v = (s₁, .abort .overlap) ∧
+      s₁.fs = (s.setContent r v).fs ∧ s₁.store = st ∧ s₁.trace = s.trace ++ [.writeStart r c] := by
+  have hv : validateWrite st cur dst = some .overlap :=
+    (validateWrite_overlap_iff st cur dst).mpr (by simp [hw])
+  exact ⟨_, doWrote_validate_abort sem s r c cur v st dst _ hcur hn hv, rfl, by simp, rfl⟩
+
+/-- Exactly when: inside a task, and the resource has a recorded writer. -/
+theorem C06_overlap_iff (s : Sess) (r c : Nat) (v : Option Int) :
+    (doWrite sem s r c v).2 = .abort .overlap ↔
+      s.cur.isSome ∧
+      ((s.store.getOrCreateResNode r).1.taskWritingTo (s.store.getOrCreateResNode r).2).isSome := by
+  cases hcur : s.cur with
+  | none => simp [doWrite_no_cur sem s r c v hcur]
+  | some cur =>
+    rcases hp : s.store.getOrCreateResNode r with ⟨st, dst⟩
+    rw [doWrite_abort_iff sem s r c cur v st dst .overlap hcur hp, validateWrite_overlap_iff]
+    simp
+
+theorem C06_wrote_overlap_iff (s : Sess) (r c : Nat) (v : Option Int) :
+    (doWrote sem s r c v).2 = .abort .overlap ↔
+      s.cur.isSome ∧
+      ((s.store.getOrCreateResNode r).1.taskWritingTo (s.store.getOrCreateResNode r).2).isSome := by
+  cases hcur : s.cur with
+  | none => simp [doWrote_no_cur sem s r c v hcur]
+  | some cur =>
+    rcases hp : s.store.getOrCreateResNode r with ⟨st, dst⟩
+    rw [doWrote_abort_iff sem s r c cur v st dst .overlap hcur hp, validateWrite_overlap_iff]
+    simp
+
+/-- The overlap test comes first: with a recorded writer the verdict is `overlap` whatever the
+readers are (never `hidden`). -/
+theorem C06_overlap_before_hidden (st : Store) (src dst w : Nat) (hw : st.taskWritingTo dst = some w) :
+    validateWrite st src dst = some .overlap := by
+  simp [validateWrite, hw]
+
+/-- Conversely, without a recorded writer there is no overlap abort. -/
+theorem C06_no_writer_no_overlap (s : Sess) (r c : Nat) (v : Option Int) (st : Store) (dst : Nat)
+    (hn : s.store.getOrCreateResNode r = (st, dst))
+    (hw : st.taskWritingTo dst = none) :
+    (doWrite sem s r c v).2 ≠ .abort .overlap := by
+  rw [Ne, C06_overlap_iff, hn]
+  simp [hw]
+
+/-! ### non-vacuity -/
+
+open DecEqAux
+
+/-- 0 writes resource 8; 1 requires 0 and then writes 8 itself; 2 writes 8 twice;
+3 requires 0 and declares a write to 8 after the fact. -/
+def c06Tbl : List (Nat × Script) :=
+  [(0, .write 8 0 (some (.const 1)) (.ret (.const 0))),
+   (1, .req 0 0 (.write 8 0 (some (.const 2)) (.ret (.const 0)))),
+   (2, .write 8 0 (some (.const 1)) (.write 8 0 (some (.const 2)) (.ret (.const 0)))),
+   (3, .req 0 0 (.wrote 8 0 (some (.const 2)) (.ret (.const 0))))]
+
+def c06Run (t : Nat) := sessionRequire stdSem (bodyOf c06Tbl) 100 (PieSt.newSession {}) t
+
+/-- Second writer: abort `overlap`, last event `write_start`, the resource still holds the first
+writer's value. -/
+example : (c06Run 1).2 = .abort .overlap ∧ (c06Run 1).1.fs = [(8, 1)] ∧
+    (c06Run 1).1.trace.getLast? = some (.writeStart 8 0) := by decide +kernel
+
+/-- The recorded writer may be the writing task itself: writing one resource twice aborts. -/
+example : (c06Run 2).2 = .abort .overlap ∧ (c06Run 2).1.fs = [(8, 1)] := by decide +kernel
+
+/-- `written_to`: same verdict, but the second value is already in place. -/
+example : (c06Run 3).2 = .abort .overlap ∧ (c06Run 3).1.fs = [(8, 2)] := by decide +kernel
+
+/-- A single writer is fine. -/
+example : (c06Run 0).2 = .ok 0 ∧ (c06Run 0).1.fs = [(8, 1)] := by decide +kernel
+
 end PieModel
